@@ -268,7 +268,7 @@ pub fn gen_c16_pos(seed: u64, n: usize) -> (String, Vec<LitItem>) {
     // long literals with a partial last word whose tail symbols are not the zero code
     fixed.push(("dna", "ACGT".repeat(257) + "TG"));
     fixed.push(("iupac", "ACGTRYSWKMBDHVN-".repeat(32) + "NVB"));
-    if n >= 250 {
+    if n >= 180 {
         LONG_LITERALS.with(|l| l.set(true));
         fixed.push(("dna", "GATTACA".repeat(200) + "CCT"));
         fixed.push(("iupac", "N-WS".repeat(200) + "BDHVN"));
